@@ -199,6 +199,13 @@ def run(chk):
         if p.returncode != 0:
             raise RuntimeError("r_ctor failed: " + p.stderr[-2000:])
         real = json.loads(p.stdout)["results"]
+
+        def rerun(cfg):
+            p2 = V.run_py("r_ctor.py", input_=json.dumps({"cases": cases}), timeout=3600, extra_env={"VERIF_CONV_CFG": cfg})
+            if p2.returncode != 0:
+                raise RuntimeError("r_ctor (%s) failed: " % cfg + p2.stderr[-2000:])
+            return json.loads(p2.stdout)["results"]
+        CS.merge_foreign_history(cases, real, rerun, key=lambda r: json.dumps(r, sort_keys=True))
         bad, nrows = model_unstr(cases, real) if ok else ([], 0)
         chk.obligation("correspondence:Sem.unstr-vs-real-unstructure(constructor-built objects)", ok and not bad, "%d objects, %d disagreements" % (nrows, len(bad)))
         chk.extra["traces_validated_against_impl"] = nrows
